@@ -17,6 +17,7 @@ def dispatch (line : String) : String :=
   | "kvfs" :: rest => kvfsEngine rest
   | "asm15" :: rest => asm15Engine rest
   | "osfs" :: rest => osfsEngine rest
+  | "git" :: rest => gitEngine rest
   | _ => "bad-op"
 
 partial def loop (hin hout : IO.FS.Stream) : IO Unit := do
